@@ -102,6 +102,7 @@ type rewriteStats struct {
 	ChanSendsHooked  []string `json:"chan_sends_hooked"`
 	ChanOpsUnhooked  []string `json:"chan_ops_unhooked"`
 	// package-level variables of the repository: re-initialised before every in-process application run / left alone
+	SyncImportsRewritten []string `json:"sync_imports_rewritten"`
 	PkgVarsReset    []string `json:"package_vars_reset"`
 	PkgVarsNotReset []string `json:"package_vars_not_reset"`
 }
@@ -193,7 +194,6 @@ func buildOverlay(repo, verif, out string) (string, *rewriteStats, error) {
 		if p.tpkg == nil {
 			l.check(p)
 		}
-		isParser := strings.HasSuffix(ip, "/v3/parser")
 		plan := planResets(l.fset, repo, p, st)
 		for fi, f := range p.files {
 			fname := p.names[fi]
@@ -297,15 +297,12 @@ func buildOverlay(repo, verif, out string) (string, *rewriteStats, error) {
 					edits = append(edits, edit{off(s.Pos()), off(s.Body.Lbrace) + 1, hdr + body})
 					st.MapSitesHooked = append(st.MapSitesHooked, sname)
 				case *ast.SendStmt:
-					if !isParser || inSelect[s] {
+					if inSelect[s] {
 						return true
 					}
 					edits = append(edits, edit{off(s.Pos()), off(s.End()), fmt.Sprintf("verifshim.Send(%s, %s)", text(s.Chan), text(s.Value))})
 					st.ChanSendsHooked = append(st.ChanSendsHooked, site(s.Pos()))
 				case *ast.SelectStmt:
-					if !isParser {
-						return true
-					}
 					// select -> switch over verifshim.Select(...): every case becomes a transition of the scheduler
 					var cases []string
 					hasDefault := false
@@ -370,7 +367,7 @@ func buildOverlay(repo, verif, out string) (string, *rewriteStats, error) {
 					}
 					st.ChanSendsHooked = append(st.ChanSendsHooked, site(s.Pos())+":select")
 				case *ast.AssignStmt:
-					if !isParser || len(s.Rhs) != 1 {
+					if len(s.Rhs) != 1 {
 						return true
 					}
 					ue, isRecv := s.Rhs[0].(*ast.UnaryExpr)
@@ -389,7 +386,7 @@ func buildOverlay(repo, verif, out string) (string, *rewriteStats, error) {
 					edits = append(edits, edit{off(ue.Pos()), off(ue.End()), fmt.Sprintf("%s%d(%s)", fn, hi, text(ue.X))})
 					st.ChanSendsHooked = append(st.ChanSendsHooked, site(ue.Pos())+":recv")
 				case *ast.UnaryExpr:
-					if !isParser || s.Op != token.ARROW || inSelect[s] {
+					if s.Op != token.ARROW || inSelect[s] {
 						return true
 					}
 					hi, okh := helperFor(s.X)
@@ -400,14 +397,11 @@ func buildOverlay(repo, verif, out string) (string, *rewriteStats, error) {
 					edits = append(edits, edit{off(s.Pos()), off(s.End()), fmt.Sprintf("verifRecv1_%d(%s)", hi, text(s.X))})
 					st.ChanSendsHooked = append(st.ChanSendsHooked, site(s.Pos())+":recv")
 				case *ast.GoStmt:
-					if !isParser {
-						return true
-					}
 					edits = append(edits, edit{off(s.Pos()), off(s.Call.Pos()), "verifshim.Go(func() { "})
 					edits = append(edits, edit{off(s.Call.End()), off(s.Call.End()), " })"})
 					st.ChanSendsHooked = append(st.ChanSendsHooked, site(s.Pos())+":go")
 				case *ast.CallExpr:
-					if id, ok := s.Fun.(*ast.Ident); ok && id.Name == "close" && isParser && len(s.Args) == 1 {
+					if id, ok := s.Fun.(*ast.Ident); ok && id.Name == "close" && len(s.Args) == 1 {
 						if tv, ok := p.info.Types[s.Args[0]]; ok && tv.Type != nil {
 							if _, isChan := tv.Type.Underlying().(*types.Chan); isChan {
 								edits = append(edits, edit{off(s.Fun.Pos()), off(s.Fun.End()), "verifshim.Close"})
@@ -419,6 +413,13 @@ func buildOverlay(repo, verif, out string) (string, *rewriteStats, error) {
 				return true
 			})
 			fileResets := plan.byFile[fi]
+			// the standard package sync is replaced by the cooperative stand-in (same package name, other path)
+			for _, im := range f.Imports {
+				if im.Path.Value == `"sync"` {
+					edits = append(edits, edit{off(im.Path.Pos()), off(im.Path.End()), `"` + shimImportPath + `/vsync"`})
+					st.SyncImportsRewritten = append(st.SyncImportsRewritten, site(im.Pos()))
+				}
+			}
 			if len(edits) == 0 && len(fileResets) == 0 {
 				continue
 			}
@@ -467,6 +468,10 @@ func buildOverlay(repo, verif, out string) (string, *rewriteStats, error) {
 	shimFiles, _ := filepath.Glob(filepath.Join(verif, "shim", "*.go"))
 	for _, sf := range shimFiles {
 		overlay[filepath.Join(repo, "verifshim", filepath.Base(sf))] = sf
+	}
+	vsFiles, _ := filepath.Glob(filepath.Join(verif, "shim", "vsync", "*.go"))
+	for _, sf := range vsFiles {
+		overlay[filepath.Join(repo, "verifshim", "vsync", filepath.Base(sf))] = sf
 	}
 	// harness: _test.go files of package main of the cmd module
 	hFiles, _ := filepath.Glob(filepath.Join(verif, "harness", "*.go"))
